@@ -76,8 +76,8 @@ func (c14Engine) Gen(t *rapid.T, tier string) any {
 }
 
 type c14Probe struct {
-	name   string
-	fs     []*mocrelay.ReqFilter
+	name    string
+	fs      []*mocrelay.ReqFilter
 	limited bool
 }
 
